@@ -20,6 +20,7 @@ MUT = {
   "full_copy_then_verify": [("lintcmd/cache/cache.go", "if _, err := io.CopyN(w, file, size-1); err != nil {", "if _, err := io.CopyN(w, file, size-1); err != nil || func() bool { f.Write([]byte{0}); f.Seek(-1, 1); return false }() {")],
  },
  "C18": {
+  "race_built_counter": [("go/ir/builder.go", "\t\tfn.build(b, fn)\n\t\tfn.done()\n", "\t\tfn.build(b, fn)\n\t\tfn.done()\n\t\tbuiltFunctions++\n"), ("go/ir/builder.go", "// cpuLimit is a counting semaphore to limit CPU parallelism.\n", "// builtFunctions counts built functions (statistics).\nvar builtFunctions int\n\n// cpuLimit is a counting semaphore to limit CPU parallelism.\n")],
   "instance_no_wait": [("go/ir/instantiate.go", "\t} else {\n\t\tb.waitForSharedFunction(inst)\n\t}", "\t}")],
   "objectmethod_no_wait": [("go/ir/methods.go", "\t} else {\n\t\tb.waitForSharedFunction(fn)\n\t}\n\treturn fn\n}", "\t}\n\treturn fn\n}")],
   "methodvalue_no_wait": [("go/ir/methods.go", "\t\t} else {\n\t\t\tb.waitForSharedFunction(fn)\n\t\t}\n\n\t\treturn fn", "\t\t}\n\n\t\treturn fn")],
@@ -31,6 +32,8 @@ MUT = {
   "early_markdone_in_wait": [("go/ir/task.go", "\t\t<-u.done // wait for u to be marked done.\n", "\t\tif u == x {\n\t\t\t<-u.done // wait for u to be marked done.\n\t\t}\n")],
  },
  "C06": {
+  "race_shared_counter": [("lintcmd/runner/runner.go", "\t\t\t\ta.Diagnostics = append(a.Diagnostics, d)\n", "\t\t\t\ta.Diagnostics = append(a.Diagnostics, d)\n\t\t\t\treportedDiagnostics++\n"), ("lintcmd/runner/runner.go", "const sanityCheck = false\n", "const sanityCheck = false\n\n// reportedDiagnostics counts diagnostics for statistics.\nvar reportedDiagnostics int\n")],
+  "race_failed_flag_shared": [("lintcmd/runner/runner.go", "\tt := time.Now()\n\tres, err := a.Analyzer.Run(a.Pass)\n", "\tt := time.Now()\n\tlastAnalyzer = a.Analyzer.Name\n\tres, err := a.Analyzer.Run(a.Pass)\n"), ("lintcmd/runner/runner.go", "const sanityCheck = false\n", "const sanityCheck = false\n\n// lastAnalyzer is the analyzer that ran most recently (for crash reports).\nvar lastAnalyzer string\n")],
   "triggers_before_exec": [("lintcmd/runner/runner.go", "\tif !a.IsFailed() {\n\t\tif err := exec(a); err != nil {\n\t\t\ta.MarkFailed()\n\t\t\ta.AddError(err)\n\t\t}\n\t}\n\tif sem != nil {\n\t\tsem.Release()\n\t}\n\n\tfor _, t := range a.Triggers() {\n\t\tif t.DecrementPending() {\n\t\t\tqueue <- t\n\t\t}\n\t}\n",
       "\tfor _, t := range a.Triggers() {\n\t\tif t.DecrementPending() {\n\t\t\tqueue <- t\n\t\t}\n\t}\n\tif !a.IsFailed() {\n\t\tif err := exec(a); err != nil {\n\t\t\ta.MarkFailed()\n\t\t\ta.AddError(err)\n\t\t}\n\t}\n\tif sem != nil {\n\t\tsem.Release()\n\t}\n")],
   "pending_off_by_one": [("lintcmd/runner/runner.go", "\ta.pending = uint32(len(a.deps))\n\n\treturn a\n}", "\ta.pending = uint32(len(a.deps))\n\tif a.pending > 1 {\n\t\ta.pending--\n\t}\n\n\treturn a\n}")],
